@@ -5,7 +5,7 @@
 From RU Require Import Base.Prelude Base.Utf8 Base.Utf8Facts Model.AsciiSet Gen.Tables Model.PercentEncoding
   Model.HostT Model.UrlRecord Model.Parser Model.Setters Model.WF
   Proofs.C14_Set Proofs.C14_Enc Proofs.C14_Views Proofs.ListN
-  Proofs.C05_Enc Proofs.C05_Parser Proofs.C05_Setters Proofs.C05_History.
+  Proofs.C05_Enc Proofs.C05_Parser Proofs.C05_Setters Proofs.C05_History Proofs.C05_Sharp.
 
 (* ================= 1. encoder alphabet ================= *)
 
@@ -150,6 +150,22 @@ Check C05_parse : forall dbg hp hpo hd ovr base input u,
   Forall ok_or_space (ser u).
 Print Assumptions C05_parse.
 
+(* the sharper form: U+0020 only with an opaque path.  `sharp u` = every byte in 0x21..0x7E, or
+   (every byte in 0x20..0x7E, the bytes up to and including the ':' in 0x21..0x7E, the scheme not
+   special, and cannot_be_a_base u = Some true).  Preserved from the base to the result. *)
+Theorem C05_bytes : forall dbg hp hpo hd ovr base input u,
+  HostOK hp hpo hd -> usv_list input ->
+  match base with Some b => sharp b | None => True end ->
+  parse_url dbg hp hpo hd ovr base input = POk u ->
+  sharp u.
+Proof. intros dbg hp hpo hd ovr base input u HOK. exact (parse_url_sharp dbg hp hpo hd ovr HOK base input u). Qed.
+Check C05_bytes : forall dbg hp hpo hd ovr base input u,
+  HostOK hp hpo hd -> usv_list input ->
+  match base with Some b => sharp b | None => True end ->
+  parse_url dbg hp hpo hd ovr base input = POk u ->
+  sharp u.
+Print Assumptions C05_bytes.
+
 (* ================= 3. histories ================= *)
 (* Reachable dbg hp hpo hd : parse without base, parse against a reachable base (any encoding
    override), and any of 19 mutators (9 Url setters, path_segments_mut sessions, 9 quirks setters) with
@@ -169,6 +185,9 @@ Print Assumptions C05_history.
 (* what is not proved: the sharper invariant along histories (space only inside an opaque path after
    setters), the per-component delimiter freedom of the stored slices (userinfo / path / query /
    fragment of every reachable Url), and the host clause *)
+Definition C05_history_sharp_statement : Prop :=
+  forall dbg hp hpo hd u, HostOK hp hpo hd -> IpOK hd -> Reachable dbg hp hpo hd u -> sharp u.
+
 Definition C05_components_statement : Prop :=
   forall dbg hp hpo hd u, HostOK hp hpo hd -> IpOK hd -> Reachable dbg hp hpo hd u ->
   (forall un, username dbg u = Some un ->
